@@ -121,7 +121,7 @@ CLAIMED["C10"]["text"] += (" Second tie: tools/regtrans translates the methods o
   "(coq/RegSrcSem.v: interleaving semantics at lock granularity in which an access to the map without the mutex, a visible operation inside a critical section or a mutex "
   "still held at the end of a step is stuck, and the label of a critical section is derived from its reads/writes/deletes) on every run, and coq/RegSrcProofs.v is re-checked "
   "against them: lock-step bisimulation with the model (sim_step, sim_reach, sim_run) and the transferred theorems C10_src_unique_live, C10_src_getpid_iff_registered, "
-  "C10_src_one_winner_at_the_end, C10_src_no_thread_blocks; when the source leaves the translated fragment or the proof no longer goes through the tie is reported as "
+  "C10_src_one_winner, C10_src_one_winner_at_the_end, C10_src_respawn_after_remove, C10_src_no_thread_blocks; when the source leaves the translated fragment or the proof no longer goes through the tie is reported as "
   "unavailable in the evidence and the verdict rests on the replay of explored schedules.")
 CLAIMED["C10"]["tech"] += " + model regenerated from the source by a translator and proved bisimilar"
 CLAIMED["C10"]["note"] += " Translation tie: translator tools/regtrans and the LMini semantics (incl. the reduction of a disciplined critical section to one step) are trusted when its status is 'proved'."
